@@ -176,6 +176,11 @@ def run_one(mod: Any, drv: Any, case: Dict[str, Any]) -> Dict[str, Any]:
     """Evaluate one case: impl, model, comparison, Lean spec check on impl output, Python oracle."""
     case = norm_case(case)
     res: Dict[str, Any] = {"status": "ok", "diffs": [], "violations": []}
+    if hasattr(mod, "wf") and not case.get("_name") and not mod.wf(case):
+        # the generator is meant to stay inside the property's quantifier; if it ever does not, the case is skipped
+        # (and counted), never judged
+        res.update({"status": "skipped", "features": {"generator_outside_quantifier": 1}, "nontrivial": False})
+        return res
     obs = mod.observe(case)
     res["obs_digest"] = digest([obs.get("canon"), obs.get("rows"), obs.get("key")])
     if hasattr(mod, "in_domain") and not mod.in_domain(case, obs):
